@@ -66,7 +66,8 @@ enum Act {
     RemoveTrusted,
     /// token: 0 T1, 1 T2, 2 unknown id; gas: 0 = 1 unit, 1 = more than the sender has, 2 = zero, 3 = negative
     /// gas_tok: which token pays the gas: 2 = the gas token, 1 = T2, 0 = T1 (aliasing with the transferred token)
-    Out { token: u8, sender: usize, amt: Amt, trusted_dest: bool, data: bool, gas: u8, auth: bool, gas_tok: u8 },
+    /// hub: the destination named is the hub's own chain (trusted at set-up, never removed)
+    Out { token: u8, sender: usize, amt: Amt, trusted_dest: bool, data: bool, gas: u8, auth: bool, gas_tok: u8, hub: bool },
     /// recipient: 0 = U2, 1 = app with data, 2 = the token service itself, 3 = an account-type address
     In { token: u8, recipient: u8, amt: Amt },
     /// the last successful inbound delivery is approved and delivered again, unchanged
@@ -115,6 +116,8 @@ impl Scenario for C05 {
         // a native seat behind the canonical id as well: only a broken tree deploys a token there
         iw.seat_token(&t2_id);
         assert!(iw.set_trusted(X).ok);
+        // the hub's own chain is a trusted destination too (as in the repository's own set-up helper)
+        assert!(iw.set_trusted(HUB_CHAIN).ok);
         iw.mint_asset(&iw.assets[0], &iw.users[0], 20);
         iw.mint_asset(&iw.assets[0], &iw.users[1], 5);
         iw.mint_asset(&iw.gas_token, &iw.users[0], 3);
@@ -178,33 +181,34 @@ impl Scenario for C05 {
             for sender in 0..2usize {
                 for amt in amts {
                     if token == 2 && amt != Amt::One { continue; }
-                    v.push(Act::Out { token, sender, amt, trusted_dest: true, data: false, gas: 0, auth: true, gas_tok: 2 });
+                    v.push(Act::Out { token, sender, amt, trusted_dest: true, data: false, gas: 0, auth: true, gas_tok: 2, hub: false });
                 }
             }
         }
         for token in 0..2u8 {
-            v.push(Act::Out { token, sender: 0, amt: Amt::One, trusted_dest: false, data: false, gas: 0, auth: true, gas_tok: 2 });
-            v.push(Act::Out { token, sender: 0, amt: Amt::One, trusted_dest: true, data: true, gas: 0, auth: true, gas_tok: 2 });
+            v.push(Act::Out { token, sender: 0, amt: Amt::One, trusted_dest: false, data: false, gas: 0, auth: true, gas_tok: 2, hub: false });
+            v.push(Act::Out { token, sender: 0, amt: Amt::One, trusted_dest: true, data: true, gas: 0, auth: true, gas_tok: 2, hub: false });
+            v.push(Act::Out { token, sender: 0, amt: Amt::One, trusted_dest: true, data: false, gas: 0, auth: true, gas_tok: 2, hub: true });
             // a transfer that carries data still has to move a positive amount
-            v.push(Act::Out { token, sender: 0, amt: Amt::Zero, trusted_dest: true, data: true, gas: 0, auth: true, gas_tok: 2 });
-            v.push(Act::Out { token, sender: 0, amt: Amt::Neg, trusted_dest: true, data: true, gas: 0, auth: true, gas_tok: 2 });
+            v.push(Act::Out { token, sender: 0, amt: Amt::Zero, trusted_dest: true, data: true, gas: 0, auth: true, gas_tok: 2, hub: false });
+            v.push(Act::Out { token, sender: 0, amt: Amt::Neg, trusted_dest: true, data: true, gas: 0, auth: true, gas_tok: 2, hub: false });
             for gas in 1..4u8 {
-                v.push(Act::Out { token, sender: 0, amt: Amt::One, trusted_dest: true, data: false, gas, auth: true, gas_tok: 2 });
+                v.push(Act::Out { token, sender: 0, amt: Amt::One, trusted_dest: true, data: false, gas, auth: true, gas_tok: 2, hub: false });
             }
-            v.push(Act::Out { token, sender: 0, amt: Amt::One, trusted_dest: true, data: false, gas: 0, auth: false, gas_tok: 2 });
+            v.push(Act::Out { token, sender: 0, amt: Amt::One, trusted_dest: true, data: false, gas: 0, auth: false, gas_tok: 2, hub: false });
         }
         // the second token of each kind: transfers must touch exactly that token
         for token in [3u8, 4] {
             for sender in 0..2usize {
                 for amt in [Amt::One, Amt::All] {
-                    v.push(Act::Out { token, sender, amt, trusted_dest: true, data: false, gas: 0, auth: true, gas_tok: 2 });
+                    v.push(Act::Out { token, sender, amt, trusted_dest: true, data: false, gas: 0, auth: true, gas_tok: 2, hub: false });
                 }
             }
         }
         // the gas is paid in the transferred token itself, or in the other ITS token
         for (token, gas_tok) in [(0u8, 0u8), (1, 1), (0, 1), (1, 0)] {
             for amt in [Amt::One, Amt::All] {
-                v.push(Act::Out { token, sender: 0, amt, trusted_dest: true, data: false, gas: 0, auth: true, gas_tok });
+                v.push(Act::Out { token, sender: 0, amt, trusted_dest: true, data: false, gas: 0, auth: true, gas_tok, hub: false });
             }
         }
         if m.inbound < if self.thorough { 4 } else { 3 } {
@@ -302,7 +306,7 @@ impl Scenario for C05 {
                 out.expect(c.ok == (m.trusted != set), "trust.outcome", || format!("{:?}: ok={}", a, c.ok));
                 if c.ok { m.trusted = set; }
             }
-            Act::Out { token, sender, amt, trusted_dest, data, gas, auth, gas_tok } => {
+            Act::Out { token, sender, amt, trusted_dest, data, gas, auth, gas_tok, hub } => {
                 out.kind = "outbound";
                 let (tid, registered, tix) = match token {
                     0 => (ctx.t1_id, m.t1, 0usize),
@@ -318,7 +322,7 @@ impl Scenario for C05 {
                 let gas_registered = match gt { 0 => m.t1, _ => true };
                 let gbal = m.bal[gt][*sender];
                 let g = match gas { 0 => 1, 1 => gbal + 1, 2 => 0, _ => -1 };
-                let chain = if *trusted_dest { X } else { Z };
+                let chain = if *hub { HUB_CHAIN } else if *trusted_dest { X } else { Z };
                 let data_bytes: Vec<u8> = if *data { b"call-data".to_vec() } else { vec![] };
                 let s = &iw.users[*sender];
                 let signers = if *auth { vec![s.clone()] } else { vec![iw.users[1 - *sender].clone()] };
@@ -339,7 +343,7 @@ impl Scenario for C05 {
                 out.accepted = call.ok;
                 // when the gas is paid in the transferred token the sender needs amount + gas
                 let enough_gas = if gt == tix && *token != 2 { bal >= x.max(0) + g } else { gbal >= g };
-                let want = *auth && registered && gas_registered && x > 0 && bal >= x && *trusted_dest && m.trusted && g > 0 && enough_gas;
+                let want = *auth && registered && gas_registered && x > 0 && bal >= x && *trusted_dest && (m.trusted || *hub) && g > 0 && enough_gas;
                 out.expect(call.ok == want, "outbound.outcome", || {
                     format!("{:?} (amount {}, gas {}, balance {}, gas balance {}, trusted {}): ok={} ({}), model {}", a, x, g, bal, gbal, m.trusted, call.ok, call.err, want)
                 });
@@ -488,6 +492,22 @@ impl Scenario for C05 {
                 out.expect(custody == m.locked[t] - m.released[t] && custody >= 0, "probe.custody", || format!("token {} custody {} vs locked {} - released {}", t, custody, m.locked[t], m.released[t]));
             }
         }
+        // the supply of a service-deployed token moves by the service's burns and mints only: an
+        // allowance that has lapsed (its entry still sits in temporary storage) lets nobody burn
+        if m.t1 && m.bal[0][0] >= 1 {
+            let w = &iw.w;
+            let t1 = self.token_addr(ctx, 0);
+            let (u1, u2) = (&iw.users[0], &iw.users[1]);
+            let snap = w.snap();
+            let ap = w.call(t1, "approve", &[u1.to_val(), u2.to_val(), w.v(1i128), w.v(w.seq() + 1)], Auth::By(&[u1.clone()]));
+            w.set_seq(w.seq() + 3);
+            let burn = w.call(t1, "burn_from", &[u2.to_val(), u1.to_val(), w.v(1i128)], Auth::By(&[u2.clone()]));
+            let after = iw.balance(t1, u1);
+            w.restore(&snap);
+            out.expect(ap.ok && !burn.ok && after == Some(m.bal[0][0]), "probe.supply-moved-on-a-lapsed-allowance", || {
+                format!("approve(U1 -> U2, 1, until next ledger) ok={}; three ledgers later burn_from by U2 ok={}; U1 holds {:?} (model {})", ap.ok, burn.ok, after, m.bal[0][0])
+            });
+        }
     }
 
     fn sweep_targets(&self, ctx: &Ctx) -> (Vec<(Address, &'static str, &'static [&'static str])>, Vec<Address>) {
@@ -513,7 +533,7 @@ fn main() {
         let mut o = Opts::new(tier, if thorough { 9 } else { 4 });
         o.min_depth = 3;
         o.wall_cap_s = if thorough { 600.0 } else { 100.0 };
-        o.rule = "two base states (nothing deployed; T1 deployed + T2 registered); all sequences over deploy, register canonical, set/remove trusted chain, outbound interchain_transfer (token T1 / T2 / a second token of each kind T3, T4 / unknown id; sender U1 / U2; amount -1, 0, 1, balance, balance+1; trusted / untrusted destination (the trusted chain's name is exactly 32 bytes long); with / without data; gas 1 / unaffordable / 0 / negative, paid in the gas token or in the transferred token itself or the other ITS token; authorised by the sender or by the other user) and approved inbound transfers (replays of the last executed one included; token T1 / T2; to a user or with data to an app; amount 1, custody, custody+1; bounded count). After every new state every balance of T1, T2 and the gas token for U1, U2, app, ITS, gas service, custody == locked - released >= 0 and supply(T1) == 20 + minted - burned are compared; every successful outbound call's three events and payload are compared with the independent ABI encoding and keccak".into();
+        o.rule = "two base states (nothing deployed; T1 deployed + T2 registered); all sequences over deploy, register canonical, set/remove trusted chain, outbound interchain_transfer (token T1 / T2 / a second token of each kind T3, T4 / unknown id; sender U1 / U2; amount -1, 0, 1, balance, balance+1; trusted / untrusted destination (the trusted chain's name is exactly 32 bytes long) / the hub's own chain named as destination; with / without data; gas 1 / unaffordable / 0 / negative, paid in the gas token or in the transferred token itself or the other ITS token; authorised by the sender or by the other user) and approved inbound transfers (replays of the last executed one included; token T1 / T2; to a user or with data to an app; amount 1, custody, custody+1; bounded count). After every new state every balance of T1, T2 and the gas token for U1, U2, app, ITS, gas service, custody == locked - released >= 0 and supply(T1) == 20 + minted - burned are compared, and a burn_from on an allowance that lapsed two ledgers earlier is tried on a snapshot (refused); every successful outbound call's three events and payload are compared with the independent ABI encoding and keccak".into();
         (C05 { thorough }, o)
     });
 }
